@@ -14,6 +14,7 @@ import (
 	"encoding/json"
 	"fmt"
 	"math/rand/v2"
+	"net"
 	"os"
 	"path/filepath"
 	"sort"
@@ -106,7 +107,7 @@ func line(w, se int, t, v int64) string {
 func (rn *runner) runSchedule(sc schedule, worker int) {
 	c := rn.c
 	dir := filepath.Join(c.Scratch, fmt.Sprintf("sched%d", sc.Index))
-	base := fmt.Sprintf("127.%d.%d", 15, (worker*31+os.Getpid())%250+1)
+	base := freeBase(worker)
 	cl, err := proc.NewCluster(c.RepoDir, c.Scratch, dir, base, false, nil)
 	if err != nil {
 		c.Broken("cluster: %v", err)
@@ -451,6 +452,10 @@ func (rn *runner) runSchedule(sc schedule, worker int) {
 				back = true
 				break
 			}
+			if f.Kind != "pause" && !cl.Stores[victim].Alive() {
+				c.Broken("schedule %d %s: the restarted store exited: %s", sc.Index, label, cl.Stores[victim].StdoutTail(400))
+				return
+			}
 			time.Sleep(500 * time.Millisecond)
 		}
 		if !back {
@@ -476,6 +481,28 @@ func (rn *runner) runSchedule(sc schedule, worker int) {
 		}
 	}
 	finish()
+}
+
+// freeBase picks the 127.a.b prefix of this cluster's three addresses from (pid, worker) and
+// skips prefixes on which something already listens (another run of this check).
+func freeBase(worker int) string {
+	h := os.Getpid()*2 + worker
+	for try := 0; try < 50; try++ {
+		base := fmt.Sprintf("127.%d.%d", 100+(h/250)%120, h%250+1)
+		busy := false
+		for _, hp := range []string{".1:8086", ".1:8091", ".1:8400", ".2:8400", ".3:8400"} {
+			if conn, err := net.DialTimeout("tcp", base+hp, 300*time.Millisecond); err == nil {
+				conn.Close()
+				busy = true
+				break
+			}
+		}
+		if !busy {
+			return base
+		}
+		h += 7919
+	}
+	return fmt.Sprintf("127.%d.%d", 100+(h/250)%120, h%250+1)
 }
 
 func diffMaps(a, b map[key]int64) string {
